@@ -21,25 +21,3 @@ Proof.
   assert (E : dec_vec 64 1 4 (enc_i64 1 4 4 1) = -15) by (vm_compute; reflexivity).
   rewrite E. unfold in_range. cbn. lia.
 Qed.
-
-(* DEFECT: at a precision above the word width the first carry `x - digit` of a value at the top of the type wraps,
-   and the limbs hold v - 2^w instead of v: their torus value is not v / 2^k and a wider decoder does not return v,
-   although |v| < 2^(k-2).  (The decoder of the same width wraps back and hides it.) *)
-Lemma value_top_i64_refuted : exists b k a_size v, 2 <= b <= 62 /\ 1 <= k <= Z.of_nat a_size * b /\
-  in_range 64 v /\ 4 * Z.abs v < 2 ^ k /\
-  (e_lval b (firstn (enc_size b k) (enc_i64 b k a_size v)) - v * 2 ^ enc_krem b k) mod 2 ^ (Z.of_nat (enc_size b k) * b) <> 0 /\
-  dec_vec 128 b k (enc_i64 b k a_size v) <> v.
-Proof.
-  exists 62, 124, 2%nat, (2 ^ 63 - 1).
-  assert (E1 : enc_i64 62 124 2 (2 ^ 63 - 1) = [-2; -1]) by (vm_compute; reflexivity).
-  assert (E2 : dec_vec 128 62 124 [-2; -1] = - 2 ^ 63 - 1) by (vm_compute; reflexivity).
-  rewrite E1, E2. unfold in_range. vm_compute. repeat split; congruence.
-Qed.
-
-Lemma value_top_i128_refuted : exists b k a_size v, 2 <= b <= 62 /\ 1 <= k <= Z.of_nat a_size * b /\
-  in_range 128 v /\ 4 * Z.abs v < 2 ^ k /\
-  (e_lval b (firstn (enc_size b k) (enc_i128 b k a_size v)) - v * 2 ^ enc_krem b k) mod 2 ^ (Z.of_nat (enc_size b k) * b) <> 0.
-Proof.
-  exists 62, 186, 3%nat, (2 ^ 127 - 1).
-  unfold in_range. vm_compute. repeat split; congruence.
-Qed.
